@@ -47,6 +47,8 @@ pub enum Op {
     /// a second root: an orphan line with its own (optionally tagged) commit, merged with
     /// --allow-unrelated-histories
     OrphanMerge { tag: Option<usize>, time_skew: i64 },
+    /// flip the executable bit of a tracked file, content untouched: a modification (` M` in git status)
+    DirtyMode,
 }
 
 pub const BRANCHES: [&str; 10] = ["develop", "feature/x", "release/1", "fé/ü", "007", "hotfix/12/a", "release-2", "Feature/API-v2", "users/a+b@c", "1.2.3"];
@@ -140,7 +142,11 @@ pub fn global_excludes_config() -> std::path::PathBuf {
     CFG_ONCE.call_once(|| {
         let _ = std::fs::create_dir_all(&cfgdir);
         let _ = std::fs::write(cfgdir.join("ignore"), "*.globalign\n");
-        let _ = std::fs::write(&cfg, format!("[core]\n\texcludesFile = {}\n", cfgdir.join("ignore").display()));
+        // plus display settings a user may have: none of them changes a fact of the repository
+        let _ = std::fs::write(
+            &cfg,
+            format!("[core]\n\texcludesFile = {}\n\tpager = cat\n[column]\n\tui = always\n[color]\n\tui = always\n[tag]\n\tsort = -version:refname\n[log]\n\tdecorate = full\n\tshowSignature = false\n[status]\n\tshort = true\n\tbranch = true\n", cfgdir.join("ignore").display()),
+        );
     });
     cfg
 }
@@ -162,7 +168,7 @@ pub fn git_env(cmd: &mut Command) {
 }
 
 impl Repo {
-    fn git(&mut self, args: &[&str], date: Option<u64>) -> Result<String, String> {
+    pub fn git(&mut self, args: &[&str], date: Option<u64>) -> Result<String, String> {
         let mut cmd = Command::new("git");
         git_env(&mut cmd);
         cmd.current_dir(&self.dir).args(args);
@@ -389,6 +395,16 @@ impl Repo {
             Op::DirtyModify => {
                 std::fs::write(self.dir.join("f0.txt"), "modified\n").map_err(|e| e.to_string())?;
                 self.model.modified = true;
+            }
+            Op::DirtyMode => {
+                use std::os::unix::fs::PermissionsExt;
+                let f = self.dir.join("f0.txt");
+                let mode = std::fs::metadata(&f).map_err(|e| e.to_string())?.permissions().mode();
+                std::fs::set_permissions(&f, std::fs::Permissions::from_mode(mode ^ 0o111)).map_err(|e| e.to_string())?;
+                // a second flip restores the recorded mode: the model follows git's own view of this one file
+                let st = self.git(&["status", "--porcelain", "--", "f0.txt"], None)?;
+                self.model.modified = !st.is_empty();
+                self.log.push("chmod (flip +x) f0.txt".into());
             }
             Op::DirtyStage => {
                 std::fs::write(self.dir.join("staged.txt"), "s\n").map_err(|e| e.to_string())?;
